@@ -435,3 +435,28 @@ impl<'a, T> Drop for MutexGuard<'a, T> {
         }
     }
 }
+
+/// Addresses of the shared words behind a handle (0 = not applicable for this handle).
+#[derive(Clone, Debug, Default)]
+pub struct Layout {
+    pub head: usize,
+    pub tail_cache: usize,
+    pub writers: usize,
+    pub readers: usize,
+    pub signal: usize,
+    pub epoch: usize,
+    pub mem_manager: usize,
+    pub wait_to_free: usize,
+    pub data: usize,
+    pub data_stride: usize,
+    pub wraps_off: usize,
+    pub val_off: usize,
+    pub refs: usize,
+    pub refs_stride: usize,
+    pub capacity: usize,
+    pub token: usize,
+    pub pos: usize,
+    pub meta: usize,
+    pub wait: usize,
+    pub prod_wait: usize,
+}
